@@ -94,7 +94,7 @@ def resp_segments(kind, target, method):
 
 
 def _execute(reqs, resps, stream, csegs, cut_response, pick):
-    """reqs: client stream pieces are `csegs`; resps[i]: response kind for the i-th request the server receives;
+    """reqs: request kinds (informational), the client stream pieces are `csegs`; resps[i]: response kind for the i-th request the server receives;
     cut_response(i, data) -> list of segments; pick(step) -> "c" | "s" when both a client and a server segment can arrive"""
     from mitmproxy.proxy.layers import http as mhttp
 
@@ -255,12 +255,8 @@ def h_cuts(X, cfg):
         scut_log.append(pts)
         return [data[a:b] for a, b in zip([0] + pts, pts + [len(data)])]
 
-    order = []
-
     def pick(step):
-        a = X.choose("next", ["c", "s"])
-        order.append(a)
-        return a
+        return X.choose("next", ["c", "s"])  # which side's next segment arrives first
 
     obs = _execute(kinds, resps, stream, csegs, cut_response, pick)
     X.reach("ran")
